@@ -34,6 +34,8 @@ from ..mutate import mutate, remove_stmts, replace_expr, replace_stmt, parse_stm
 from ..model import AnalysisError
 from ..x_cookie import analyse, JAR, text_params
 from ..x_taint import detects_all, expr_tainted, raise_after_mutation
+from ..x_flow import resolve_local, expand_locals
+from ..x_sites import method_calls
 
 TECHNIQUE = "flow-sensitive taint to the morsel stores with automaton-decided regex guards; typestate for delete-before-set and emit-before-write; who-may-write on the cookie jar"
 EXPLANATION = (
@@ -204,6 +206,103 @@ def check_refuse_before_mutate(ck, fi):
         ck.ob("C25.refuse-before-mutate", fi, n.ast, holds(facts[n.id], "hasattr(self, '_new_cookie')", False), "the cookie jar is (re)created only when none exists yet", construct="jar rebound although it may exist")
 
 
+def check_attr_table(ck, fi):
+    """Exhaustive concrete evaluation of set_cookie over present/absent values of
+    every documented attribute parameter: the attributes stored in the morsel are
+    exactly the requested ones, each with the requested value (documented
+    precedence: an explicit ``expires`` wins over ``expires_days``)."""
+    import itertools
+    from ..x_peval import UNK, peval, try_fold, make_resolver, pure_self_methods
+
+    a = fi.node.args
+    names = [x.arg for x in a.posonlyargs + a.args + a.kwonlyargs if x.arg != "self"]
+    need = ["name", "value", "domain", "expires", "path", "expires_days", "max_age", "httponly", "secure", "samesite"]
+    if [n for n in need if n not in names]:
+        raise AnalysisError("set_cookie signature changed: missing %s" % [n for n in need if n not in names])
+    kw = a.kwarg.arg if a.kwarg else None
+    aliases = _jar_aliases(fi)
+    params = set(names)
+
+    def hook(n, env):
+        if n.kind != "stmt" or not isinstance(n.ast, (ast.Assign, ast.AnnAssign)) or n.ast.value is None:
+            return None
+        st = n.ast
+        tgts = st.targets if isinstance(st, ast.Assign) else [st.target]
+        for t in tgts:
+            if isinstance(t, ast.Subscript) and q.dotted(t.value) in aliases:
+                key = try_fold(t.slice, env)
+                if key is UNK or not isinstance(key, str):
+                    env["@attr:?"] = "?"
+                    continue
+                v = st.value
+                def sym(e):
+                    r = try_fold(e, env)
+                    if r is UNK:
+                        src = sorted(x for x in q.names_in(e) if x in params)
+                        r = ("<derived from %s>" % ",".join(src)) if src else UNK
+                    return r
+
+                if isinstance(v, ast.Call) and q.call_attr(v) == "format_timestamp" and len(v.args) == 1:
+                    val = ("timestamp", sym(v.args[0]))
+                else:
+                    val = sym(v)
+                env["@attr:" + key.lower()] = "?" if val is UNK or (isinstance(val, tuple) and val[1] is UNK) else val
+            elif isinstance(t, ast.Subscript) and q.dotted(t.value) == JAR:
+                env["@cookie"] = (try_fold(t.slice, env, "?"), try_fold(st.value, env, "?"))
+            elif isinstance(t, ast.Name) and t.id in params and try_fold(st.value, env) is UNK:
+                # a parameter recomputed from other parameters: keep a truthy symbolic value that names its origin
+                src = sorted(x for x in q.names_in(st.value) if x in params and x != t.id)
+                env[t.id] = "<derived from %s>" % ",".join(src)
+                return True
+        return None
+
+    known = {m: None for m in pure_self_methods(ck.repo, WEB, RH)}
+    resolver = make_resolver(ck.repo, WEB, RH)
+    exit_id = fi.cfg.exit.id
+    n_val = 0
+    EXPL = 1700000000
+    for domain, expires, days, max_age, httponly, secure, samesite in itertools.product((None, "d.example"), (None, EXPL), (None, 0, 7), (None, 60), (False, True), (False, True), (None, "lax")):
+        n_val += 1
+        init = {"name": "n", "value": "v", "domain": domain, "expires": expires, "path": "/p", "expires_days": days, "max_age": max_age,
+                "httponly": httponly, "secure": secure, "samesite": samesite, "@resolve": resolver}
+        if kw:
+            init[kw] = ()
+        states = peval(fi.cfg, init, hook=hook, known_self_methods=known, track=lambda t: True)
+        exits = states.get(exit_id, [])
+        if not exits:
+            raise AnalysisError("set_cookie has no normal exit for a valid cookie")
+        want = {"path": "/p"}
+        if domain:
+            want["domain"] = domain
+        if expires:
+            want["expires"] = ("timestamp", expires)
+        elif days is not None:
+            want["expires"] = ("timestamp", "<derived from expires_days>")
+        if max_age:
+            want["max-age"] = str(max_age)
+        if httponly:
+            want["httponly"] = True
+        if secure:
+            want["secure"] = True
+        if samesite:
+            want["samesite"] = samesite
+        label = "domain=%r expires=%r expires_days=%r max_age=%r httponly=%s secure=%s samesite=%r" % (domain, expires, days, max_age, httponly, secure, samesite)
+        seen = set()
+        for _f, env in exits:
+            got = {k[6:]: v for k, v in env.items() if k.startswith("@attr:")}
+            if "?" in got or any(v == "?" for v in got.values()):
+                raise AnalysisError("set_cookie: a morsel attribute could not be evaluated under " + label)
+            key = repr(sorted(got.items(), key=repr)) + repr(env.get("@cookie"))
+            if key in seen:
+                continue
+            seen.add(key)
+            ck.ob("C25.attr-table", fi, fi.node, env.get("@cookie") == ("n", "v"), "the cookie is stored under the given name with the given value (%s)" % label, construct="cookie stored as %r" % (env.get("@cookie"),))
+            diff = sorted(k for k in set(got) | set(want) if got.get(k, "<absent>") != want.get(k, "<absent>"))
+            ck.ob("C25.attr-table", fi, fi.node, not diff, "the morsel carries exactly the requested attributes with the requested values (%s)%s" % (label, "" if not diff else "; differs in %s: stored %r, requested %r" % (diff, {k: got.get(k, "<absent>") for k in diff}, {k: want.get(k, "<absent>") for k in diff})),
+                  construct="attribute mismatch: %s" % ",".join(diff))
+    ck.floor("C25.attr-table", n_val, 192, "valuations of set_cookie")
+
+
 def check_emit(ck):
     fl = ck.func(WEB, RH + ".flush")
     cfg = fl.cfg
@@ -218,12 +317,12 @@ def check_emit(ck):
         for c in emits:
             ck.ob("C25.emit", fl, c, c.func.attr == "add_header" and isinstance(q.arg(c, 0), ast.Constant) and q.arg(c, 0).value == "Set-Cookie",
                   "each morsel becomes its own Set-Cookie line (add_header, not set_header which would keep only the last)")
-            v = q.arg(c, 1)
+            v = resolve_local(fl, q.arg(c, 1)) if q.arg(c, 1) is not None else None
             ok = isinstance(v, ast.Call) and isinstance(v.func, ast.Attribute) and v.func.attr == "OutputString" and q.dotted(v.func.value) == tgt and (
                 (not v.args and not v.keywords) or (len(v.args) == 1 and isinstance(v.args[0], ast.Constant) and v.args[0].value is None and not v.keywords))
             ck.ob("C25.emit", fl, c, ok, "the header value is morsel.OutputString(None): name=value with all (and only) the stored attributes")
     # emitted before the header block is written, whenever a jar exists
-    wh = call_sites(fl, "self.request.connection.write_headers")
+    wh = method_calls(fl, "write_headers", "self.request.connection")
     ck.floor("C25.emit", len(wh), 1, "write_headers calls in flush")
     loop_ids = {l.id for l in loops}
     has = "hasattr(self, '_new_cookie')"
@@ -279,12 +378,14 @@ def run(ck):
     ck.rule("C25.separator-agreement", "the separator parse_cookie splits on is detected by set_cookie's attribute check")
     ck.rule("C25.last-wins", "set_cookie removes an existing morsel of the same name before storing the new value")
     ck.rule("C25.refuse-before-mutate", "set_cookie (and the APIs delegating to it) raise for rejected arguments only before the cookie jar or a morsel was modified, so a rejected call cannot damage an earlier cookie")
+    ck.rule("C25.attr-table", "set_cookie stores exactly the requested attributes with the requested values for every present/absent combination of its attribute parameters (explicit expires wins over expires_days)")
     ck.rule("C25.emit", "flush emits every morsel exactly once as its own Set-Cookie line (add_header + OutputString(None)) before write_headers")
     ck.rule("C25.funnel", "only set_cookie writes the jar; clear_cookie/set_signed_cookie delegate to it with the name and all keyword attributes; clear_cookie uses an empty value and a past expiry")
     fi, loops = check_set_cookie(ck)
     check_separator_agreement(ck, loops)
     check_last_wins(ck, fi)
     check_refuse_before_mutate(ck, fi)
+    check_attr_table(ck, fi)
     check_emit(ck)
     check_funnel(ck)
 
@@ -367,6 +468,10 @@ MUTANTS = [
     ("cookie stored before the attribute validation runs", _in(WEB, RH + ".set_cookie", lambda root: _store_before_validation(root)), ("C25.refuse-before-mutate", "C25.attr-validated")),
     ("clear_cookie checks its excluded arguments after clearing", _in(WEB, RH + ".clear_cookie", lambda root: _check_last(root)), "C25.refuse-before-mutate"),
     ("a new jar is created on every set_cookie", _in(WEB, RH + ".set_cookie", replace_expr(lambda n: isinstance(n, ast.UnaryOp) and "hasattr" in _u(n) and "_new_cookie" in _u(n), lambda n: ast.Constant(value=True))), "C25.refuse-before-mutate"),
+    ("expires_days tested by truthiness (0 days no longer expires the cookie)", _in(WEB, RH + ".set_cookie", replace_expr(lambda n: isinstance(n, ast.Compare) and _u(n) == "expires_days is not None", lambda n: ast.Name(id="expires_days", ctx=ast.Load()))), "C25.attr-table"),
+    ("expires_days overrides an explicit expires", _in(WEB, RH + ".set_cookie", replace_expr(lambda n: isinstance(n, ast.BoolOp) and "expires_days is not None" in _u(n) and "not expires" in _u(n), lambda n: n.values[0])), "C25.attr-table"),
+    ("max-age taken from expires_days", _in(WEB, RH + ".set_cookie", replace_expr(lambda n: q.is_call(n, "str") and _u(n) == "str(max_age)", lambda n: parse_expr("str(expires_days)"))), "C25.attr-table"),
+    ("samesite stored only for secure cookies", _in(WEB, RH + ".set_cookie", replace_expr(lambda n: isinstance(n, ast.Name) and n.id == "samesite" and isinstance(n.ctx, ast.Load) and False, lambda n: n) if False else (lambda root: _samesite_needs_secure(root))), "C25.attr-table"),
     ("existing morsel not deleted before re-set", _in(WEB, RH + ".set_cookie", remove_stmts(lambda st: isinstance(st, ast.If) and "in self._new_cookie" in _u(st.test) and not isinstance(st.test, ast.UnaryOp))), "C25.last-wins"),
     ("delete-before-set only for secure cookies", _in(WEB, RH + ".set_cookie", replace_expr(lambda n: isinstance(n, ast.Compare) and _u(n) == "name in self._new_cookie", lambda n: parse_expr("name in self._new_cookie and secure"))), "C25.last-wins"),
     ("Set-Cookie emitted with set_header (only the last cookie survives)", _in(WEB, RH + ".flush", replace_expr(lambda n: isinstance(n, ast.Attribute) and n.attr == "add_header", lambda n: ast.Attribute(value=n.value, attr="set_header", ctx=ast.Load()))), "C25.emit"),
@@ -438,5 +543,13 @@ def _check_last(root):
     for i, st in enumerate(body):
         if isinstance(st, ast.For) and any(isinstance(x, ast.Raise) for x in ast.walk(st)):
             body.append(body.pop(i))
+            return True
+    return False
+
+
+def _samesite_needs_secure(root):
+    for st in ast.walk(root):
+        if isinstance(st, ast.If) and isinstance(st.test, ast.Name) and st.test.id == "samesite":
+            st.test = parse_expr("samesite and secure")
             return True
     return False
